@@ -41,6 +41,7 @@ class Engine(object):
     def __init__(self, m):
         self.m = m
         self.memo = {}
+        self.rmemo = {}
         self.field_inv = dict((k, (v[0], v[1])) for k, v in FIELD_PRE.items())
         self.inprog = set()
 
@@ -48,7 +49,7 @@ class Engine(object):
         """{param index: interval} joined over all in-tree call sites (internal functions only)"""
         m = self.m
         fn = m.funcs[fname]
-        if depth >= 2 or not api.is_internal(m, fname):
+        if depth >= 12 or not api.is_internal(m, fname):
             return {}
         sites = m.callers.get(fname, [])
         out = {}
@@ -121,9 +122,36 @@ class Engine(object):
         finally:
             self.inprog.discard(fname)
         pre = dict((v, (lo, hi)) for (f, v), (lo, hi, why) in PRECOND.items() if f == fname)
-        r = Intervals(self.m, fname, param_iv=piv, preconds=pre, field_inv=self.field_inv)
+        r = Intervals(self.m, fname, param_iv=piv, preconds=pre, field_inv=self.field_inv, call_iv=self.call_iv)
         self.memo[key] = r
         return r
+
+    def call_iv(self, call, argivs):
+        """result interval of a direct call to a helper the rule tables do not know (tables/known_funcs.py):
+        the helper is analysed with the argument intervals of this call site"""
+        m = self.m
+        name = callee_name(call)
+        if name is None or not m.is_new_helper(name):
+            return None
+        fn = m.funcs[name]
+        if int_type(call.cty) is None:
+            return None
+        key = (name, tuple(argivs))
+        if key in self.rmemo:
+            return self.rmemo[key]
+        self.rmemo[key] = None        # recursion guard
+        piv = dict((i, iv) for i, iv in enumerate(argivs) if iv is not None)
+        r = Intervals(m, name, param_iv=piv, preconds={}, field_inv=self.field_inv, call_iv=self.call_iv)
+        out = None
+        for node in r.g.nodes:
+            if node.kind == 'ret' and node.x.kids and node.id in r.IN:
+                iv = r.ev(node.x.kids[0], r.IN[node.id], node.id)
+                if iv is None:
+                    out = None
+                    break
+                out = iv if out is None else hull(out, iv)
+        self.rmemo[key] = out
+        return out
 
 
 def _extent(m, cn, nid, base, fname):
